@@ -259,6 +259,8 @@ func (x *Exec) checkFrame(fr *Frame, fc *FuncContract, r RetEdge, envPre *SpecEn
 	// assignable locations: (heap key -> list of refs)
 	allowed := map[string][]Term{}
 	allowRows := map[string][]Term{}
+	var allowedAny []Term // objects behind interfaces: any field key of an implementing type
+	allowedAnyT := map[string]bool{}
 	for _, a := range fc.Assigns {
 		func() {
 			defer func() {
@@ -303,6 +305,11 @@ func (x *Exec) checkFrame(fr *Frame, fc *FuncContract, r RetEdge, envPre *SpecEn
 							key, _ := e.heapKey("H", bt, j)
 							allowed[key] = append(allowed[key], v.C[1])
 						}
+					} else {
+						allowedAny = append(allowedAny, v.C[1])
+						for k := range e.implementers(u) {
+							allowedAnyT[k] = true
+						}
 					}
 				}
 			}
@@ -326,6 +333,11 @@ func (x *Exec) checkFrame(fr *Frame, fc *FuncContract, r RetEdge, envPre *SpecEn
 		}
 		for _, a := range allowRows[key] {
 			excl = append(excl, Neq(rv, a))
+		}
+		if j := strings.LastIndex(key, "#"); strings.HasPrefix(key, "H:") && j > 2 && allowedAnyT[key[2:j]] {
+			for _, a := range allowedAny {
+				excl = append(excl, Neq(rv, a))
+			}
 		}
 		goal := Forall([]Term{rv}, Implies(And(append([]Term{Lt(IntLit(0), rv), Lt(rv, entry.alloc)}, excl...)...), Eq(Select(now, rv), Select(was, rv))))
 		fr.obligation("assigns", "unchanged "+shortKey(key), r.cond, goal, "frame: only declared locations are written")
